@@ -39,6 +39,8 @@ QuatV(c) == [ty |-> "quat", v |-> c]      \* 4 components (occurs as an unpacked
 PackedV == [ty |-> "packed", v |-> 0]     \* the raw bytes of a field that has a subfield serializer (opaque here)
 NoneV   == [ty |-> "none", v |-> 0]
 NoLit   == [ty |-> "na", v |-> 0]         \* literal slot of an atom without operator
+BadEnum == [ty |-> "badenum", v |-> 0]    \* compare value `Enum.MEMBER` naming a member that does not exist: it compiles,
+                                          \* and EVALUATING the comparison on any field raises ("R")
 
 SameV(a, b) == a.ty = b.ty /\ a.v = b.v
 IsText(ty) == ty \in {"str", "bytes"}
@@ -71,6 +73,7 @@ Ops == {"==", "!=", "^=", "$=", "~=", "<", "<=", ">", ">=", "&"}
 
 \* Verdict of `field <op> literal` for ONE field value.
 Cmp(o, a, l) ==
+    IF l.ty = "badenum" THEN "R" ELSE
     CASE o = "==" -> B(SameV(a, l))
       [] o = "!=" -> B(~SameV(a, l))
       [] o = "^=" -> IF a.ty = l.ty /\ IsText(a.ty) THEN B(HasPrefix(l.v, a.v)) ELSE "X"
@@ -85,7 +88,8 @@ Cmp(o, a, l) ==
 \* Domain rule of the generators (not a check): Python container semantics that the
 \* property does not speak about are kept out (membership of an int in bytes / of anything
 \* in a vector; zip-truncating comparison of a vector with a text value).
-InDomain(o, a, l) == /\ ~(o = "~=" /\ (a.ty \in {"vec", "quat"} \/ (a.ty = "bytes" /\ l.ty = "int")))
+InDomain(o, a, l) == l.ty = "badenum" \/
+                     /\ ~(o = "~=" /\ (a.ty \in {"vec", "quat"} \/ (a.ty = "bytes" /\ l.ty = "int")))
                      /\ ~(o \in {"<", "<=", ">", ">="} /\ a.ty = "vec" /\ IsText(l.ty))
                      /\ ~(o \in {"<", "<=", ">", ">="} /\ a.ty = "quat" /\ (IsText(l.ty) \/ l.ty = "vec"))
                      /\ a.ty # "packed"
@@ -147,6 +151,8 @@ AtomVerdicts(a, e) ==
 \* an inapplicable comparison ("X") is simply not a "T".
 AtomTrue(a, e) == "T" \in AtomVerdicts(a, e)
 AtomHasX(a, e) == "X" \in AtomVerdicts(a, e)
+\* evaluating the atom on the entry raises (a compare value that cannot be resolved, met by at least one selected field)
+AtomRaises(a, e) == "R" \in AtomVerdicts(a, e)
 
 (***************************** expression trees ****************************)
 Leaf(a) == <<"atom", a>>
@@ -193,6 +199,14 @@ RECURSIVE TreeHasX(_, _)
 TreeHasX(t, e) == CASE t[1] = "atom" -> AtomHasX(t[2], e)
                     [] t[1] = "not" -> TreeHasX(t[2], e)
                     [] OTHER -> TreeHasX(t[2], e) \/ TreeHasX(t[3], e)
+RECURSIVE TreeRaises(_, _)
+TreeRaises(t, e) == CASE t[1] = "atom" -> AtomRaises(t[2], e)
+                      [] t[1] = "not" -> TreeRaises(t[2], e)
+                      [] OTHER -> TreeRaises(t[2], e) \/ TreeRaises(t[3], e)
+RECURSIVE TreeHasBadEnum(_)
+TreeHasBadEnum(t) == CASE t[1] = "atom" -> t[2].lit.ty = "badenum"
+                       [] t[1] = "not" -> TreeHasBadEnum(t[2])
+                       [] OTHER -> TreeHasBadEnum(t[2]) \/ TreeHasBadEnum(t[3])
 RECURSIVE Shape(_)
 Shape(t) == CASE t[1] = "atom" -> <<"a">>
               [] t[1] = "not" -> <<"!">> \o Shape(t[2])
@@ -260,7 +274,12 @@ RenderMin(t) ==
 \* A filter is a token sequence; the default filter of a fresh logger is `*`.
 AllFilter == <<TAtom(StarAtom)>>
 WellFormed(f) == Parse(f)[1] = "ok"
-Matches(f, e) == Denote(Parse(f)[2], e)
+\* Filters whose evaluation can raise: in the history model such a filter is a single atom (so that whether it
+\* raises does not depend on the evaluation order) -- a generator rule, see RaisingShapeOK.
+Raises(f, e) == TreeRaises(Parse(f)[2], e)
+RaisingShapeOK(f) == WellFormed(f) => (TreeHasBadEnum(Parse(f)[2]) => Parse(f)[2][1] = "atom")
+\* an entry the filter cannot be evaluated on is not shown
+Matches(f, e) == ~Raises(f, e) /\ Denote(Parse(f)[2], e)
 
 (************************ finite families for the tables *******************)
 S_a == <<97>>
@@ -399,15 +418,20 @@ LogFilters ==
       <<TAtom(A_q), <<"||">>, TAtom(A_zed)>>,                     \* X || T on the EQ entry
       <<TAtom(A_fld), <<"||">>, <<"!">>, <<"(">>, TAtom(A_q), <<")">>>>,
       <<TAtom(A_foo), <<"&&">>, <<"!">>, <<"(">>, TAtom(A_q), <<")">>>>,
-      <<<<"(">>, TAtom(A_foo)>>>>                                  \* ill-formed
+      <<<<"(">>, TAtom(A_foo)>>,                                  \* ill-formed
+      <<TAtom(Atom(<<"Foo", "Bar", "A">>, "==", BadEnum))>>,      \* raises on the LLUDP entries (1 and 4), matches nothing
+      <<TAtom(Atom(<<"Meta", "Q">>, "==", BadEnum))>>>>           \* raises on every entry
 NEnt == 4
-NFlt == 7
+NFlt == 9
 CONSTANTS UseEnt, UseFlt      \* subsets of 1..NEnt / 1..NFlt explored by a configuration
 
 InitLog == /\ arr = <<>> /\ raw = <<>> /\ view = <<>> /\ flt = AllFilter
            /\ paused = FALSE /\ ret = {} /\ probe = <<>>
 
-\* log_lludp_message / log_eq_event / log_http_response -> add_log_entry
+\* log_lludp_message / log_eq_event / log_http_response -> add_log_entry.
+\* THE LAW for filters that cannot be evaluated: an entry logged while not paused is ALWAYS retained (arrival
+\* order, window eviction as usual); if evaluating the current filter on it raises, the call reports "not shown",
+\* raises nothing itself, the entry is retained but not visible, and a later SetFilter(f') shows it iff f' matches it.
 LogResult(e) == ~paused /\ Matches(flt, e)       \* the call's return value
 Log(e) ==
     /\ IF paused
@@ -431,13 +455,17 @@ SetFilter(f) ==
        ELSE UNCHANGED <<flt, view, ret>>
     /\ UNCHANGED <<arr, raw, paused, probe>>
 
+\* set_filter does not swallow: it is only legal (an environment assumption, guard of the action) to install a
+\* filter that can be evaluated on everything retained (the window and the aged-out entries still shown).
+SetFilterLegal(f) == WellFormed(f) => \A i \in ret : ~Raises(f, arr[i])
+
 SetPaused(b) == paused' = b /\ UNCHANGED <<arr, raw, view, flt, ret, probe>>
 
 Clear == /\ raw' = <<>> /\ view' = <<>> /\ ret' = {}
          /\ UNCHANGED <<arr, flt, paused, probe>>
 
 NextLog == \/ \E i \in UseEnt : Len(arr) < MaxLog /\ Log(LogEntries[i])
-           \/ \E i \in UseFlt : LogFilters[i] # flt /\ SetFilter(LogFilters[i])
+           \/ \E i \in UseFlt : LogFilters[i] # flt /\ SetFilterLegal(LogFilters[i]) /\ SetFilter(LogFilters[i])
            \/ \E b \in BOOLEAN : b # paused /\ SetPaused(b)
            \/ (raw # <<>> \/ view # <<>>) /\ Clear
 SpecLog == InitLog /\ [][NextLog]_vars
@@ -462,6 +490,12 @@ RawIsWindow == /\ Len(raw) <= W
                /\ \A i \in 1..(Len(raw) - 1) : raw[i + 1] = raw[i] + 1
                /\ raw # <<>> => raw[Len(raw)] = Len(arr)
 FilterWellFormed == WellFormed(flt)
+\* every entry logged while not paused is retained when it arrives, whatever the filter does with it
+LogAlwaysRetains == [][(~paused /\ Len(arr') = Len(arr) + 1) =>
+                          /\ Len(arr') \in ret' /\ raw'[Len(raw')] = Len(arr')
+                          /\ (Raises(flt, arr'[Len(arr')]) => view' = view)]_vars
+\* entries the current filter cannot be evaluated on are retained but never shown
+UnevaluableHidden == \A i \in RangeOf(view) : ~Raises(flt, arr[i])
 \* an entry can only leave the visible log through re-filtering, clearing, (never through logging)
 LogOnlyAppends == [][(flt' = flt /\ Len(arr') > Len(arr)) =>
                        /\ Len(view') >= Len(view) /\ SubSeq(view', 1, Len(view)) = view
